@@ -195,7 +195,70 @@ pub fn run(ctx: &mut Ctx) {
                     mv.build = (0..n / 2).map(|_| r.pick(&atoms).to_string()).collect();
                 }
             }
+            if mv.text().len() > nodejs_semver::MAX_LENGTH {
+                ctx.skip("canonical text longer than MAX_LENGTH: no parseable string denotes this field combination");
+                continue;
+            }
             judge(ctx, &mv.to_crate(), &format!("fields:{}", mv.text()), false);
+        }
+    }
+    // printed length exactly 250..=260 bytes, every shape (build only / tag only / both;
+    // hyphens present or absent; letters or digits), built through the fields
+    ctx.stratum("FL-field-built-at-exact-printed-lengths", true);
+    for len in 250..=260usize {
+        for shape in 0..8usize {
+            if !ctx.take() {
+                continue;
+            }
+            let mut mv = crate::mv::MV::new(1, 2, 3);
+            let head = 5; // "1.2.3"
+            let fill = |n: usize, c: char, dot_every: usize| -> Vec<String> {
+                // identifiers of `c`s separated by dots, n characters in all (dots included)
+                let mut out = vec![];
+                let mut left = n;
+                while left > 0 {
+                    let take = left.min(dot_every);
+                    out.push(std::iter::repeat(c).take(take).collect::<String>());
+                    left -= take;
+                    if left > 0 {
+                        left -= 1; // the dot
+                        if left == 0 {
+                            out.last_mut().unwrap().push(c);
+                        }
+                    }
+                }
+                out
+            };
+            match shape {
+                0 => mv.build = fill(len - head - 1, 'b', 300),
+                1 => mv.build = fill(len - head - 1, '7', 18),
+                2 => mv.build = fill(len - head - 1, 'b', 16),
+                3 => mv.pre = fill(len - head - 1, 'a', 300),
+                4 => mv.pre = fill(len - head - 1, 'a', 16),
+                5 => {
+                    mv.pre = vec!["rc".into()];
+                    mv.build = fill(len - head - 4, 'b', 40);
+                }
+                6 => {
+                    mv.pre = vec!["x-y".into()];
+                    mv.build = fill(len - head - 5, 'Z', 300);
+                }
+                _ => {
+                    mv = crate::mv::MV::new(10, 20, 30);
+                    mv.build = fill(len - 8 - 1, '7', 1);
+                }
+            }
+            // numeric identifiers must stay below 2^64 to have a canonical field form
+            if mv.pre.iter().chain(mv.build.iter()).any(|i| all_digits(i) && i.parse::<u64>().is_err()) {
+                continue;
+            }
+            // a field combination whose canonical text exceeds MAX_LENGTH is denoted by no
+            // parseable string (the length limit is part of the grammar, C05): out of scope
+            if mv.text().len() > nodejs_semver::MAX_LENGTH {
+                ctx.skip("canonical text longer than MAX_LENGTH: no parseable string denotes this field combination");
+                continue;
+            }
+            judge(ctx, &mv.to_crate(), &format!("fields:len{}:shape{}", mv.text().len(), shape), false);
         }
     }
     ctx.stratum("F-built-from-canonical-fields", false);
